@@ -15,13 +15,13 @@ Print Assumptions C14_pct_roundtrip.
 
 (* The repaired BasePath (fix-c14-uri-key.patch).  For every library path `/b1/../bn` with or
    without a trailing slash and every note file <dirs>/<stem>.md — all names any non-empty byte
-   strings without `/` other than `.` and `..`, the stem not itself ending in `.md` (F14) —
+   strings without `/` other than `.` and `..`, also a stem that itself ends in `.md` (the file
+   `x.md.md` is the note `x.md`: finding F-C14-5, repaired) —
    the editor's URI of the file exists, url_to_key maps it to the key the disk loader gives the
    file, key_to_url of that key is that URI, and the URI opens exactly that file. *)
 Theorem C14_same_note :
   forall (bs : list string) (slash : bool) (dirs : list string) (stem : string),
     bs <> [] -> Forall good_name bs -> Forall good_name (dirs ++ [stem]) ->
-    ends_with MD stem = false ->
     let base := base_path bs slash in
     let comps := dirs ++ [stem] in
     exists u p,
@@ -35,7 +35,6 @@ Proof. exact same_note_fixed. Qed.
 Check C14_same_note :
   forall (bs : list string) (slash : bool) (dirs : list string) (stem : string),
     bs <> [] -> Forall good_name bs -> Forall good_name (dirs ++ [stem]) ->
-    ends_with MD stem = false ->
     let base := base_path bs slash in
     let comps := dirs ++ [stem] in
     exists u p,
@@ -50,7 +49,6 @@ Print Assumptions C14_same_note.
    directories, a library path with a space and a trailing slash *)
 Example C14_same_note_nonvacuous :
   Forall good_name ["r"; "my lib"] /\ Forall good_name (["d#1"; "é"] ++ ["100% a?b"]) /\
-  ends_with MD "100% a?b" = false /\
   base_path ["r"; "my lib"] true = "/r/my lib/" /\
   file_uri (note_path "/r/my lib/" ["d#1"; "é"; "100% a?b"]) =
     Some "file:///r/my%20lib/d%231/%C3%A9/100%25%20a%3Fb.md" /\
@@ -64,7 +62,6 @@ Theorem C14_url_to_key_as_found :
   forall (bs dirs : list string) (stem : string),
     bs <> [] -> Forall good_name bs -> Forall good_name (dirs ++ [stem]) ->
     forallb url_safe bs = true -> forallb url_safe (dirs ++ [stem]) = true ->
-    ends_with MD stem = false ->
     starts_with "file:" (join SEPS (dirs ++ [stem +++ MD])) = false ->
     let base := base_path bs false in
     let comps := dirs ++ [stem] in
@@ -76,7 +73,6 @@ Check C14_url_to_key_as_found :
   forall (bs dirs : list string) (stem : string),
     bs <> [] -> Forall good_name bs -> Forall good_name (dirs ++ [stem]) ->
     forallb url_safe bs = true -> forallb url_safe (dirs ++ [stem]) = true ->
-    ends_with MD stem = false ->
     starts_with "file:" (join SEPS (dirs ++ [stem +++ MD])) = false ->
     let base := base_path bs false in
     let comps := dirs ++ [stem] in
@@ -147,17 +143,23 @@ Check C14_trailing_slash :
   as_found_breaks_key "/r/lib/" ["a"] /\ base_trailing_slash "/r/lib/" = true.
 Print Assumptions C14_trailing_slash.
 
-(* K5 (F14, open with and without the repair): every trailing `.md` is stripped, so x.md.md and
-   x.md share a key and the URI answered for x.md.md opens x.md. *)
-Theorem C14_md_trim :
-  disk_key ["x.md"] = disk_key ["x"] /\ loaded ["x.md"] = true /\ loaded ["x"] = true /\
-  as_found_opens_other "/r/lib" ["x.md"] /\ stem_md ["x.md"] = true.
-Proof. exact md_md_refuted. Qed.
+(* former K5 (F-C14-5, repaired): one trailing `.md` is stripped, so x.md.md and x.md are the two notes
+   `x.md` and `x`, and the URI answered for the note `x.md` opens x.md.md. *)
+Theorem C14_md_once :
+  disk_key ["x.md"] = "x.md" /\ disk_key ["x"] = "x" /\ loaded ["x.md"] = true /\ loaded ["x"] = true /\
+  url_to_key_fixed "/r/lib" "file:///r/lib/x.md.md" = "x.md" /\ url_to_key_fixed "/r/lib" "file:///r/lib/x.md" = "x" /\
+  exists u p, key_to_url_fixed "/r/lib" (disk_key ["x.md"]) = Ok (Some u) /\ to_file_path u = Some p /\
+              u = "file:///r/lib/x.md.md" /\
+              path_components p = path_components (note_path "/r/lib" ["x.md"]).
+Proof. exact md_md_distinct. Qed.
 
-Check C14_md_trim :
-  disk_key ["x.md"] = disk_key ["x"] /\ loaded ["x.md"] = true /\ loaded ["x"] = true /\
-  as_found_opens_other "/r/lib" ["x.md"] /\ stem_md ["x.md"] = true.
-Print Assumptions C14_md_trim.
+Check C14_md_once :
+  disk_key ["x.md"] = "x.md" /\ disk_key ["x"] = "x" /\ loaded ["x.md"] = true /\ loaded ["x"] = true /\
+  url_to_key_fixed "/r/lib" "file:///r/lib/x.md.md" = "x.md" /\ url_to_key_fixed "/r/lib" "file:///r/lib/x.md" = "x" /\
+  exists u p, key_to_url_fixed "/r/lib" (disk_key ["x.md"]) = Ok (Some u) /\ to_file_path u = Some p /\
+              u = "file:///r/lib/x.md.md" /\
+              path_components p = path_components (note_path "/r/lib" ["x.md"]).
+Print Assumptions C14_md_once.
 
 (* K6: trim_start_matches strips a repeated prefix: the URI of <lib>/file:/r/lib/x.md is taken
    for the note x (the repaired url_to_key gives the loader's key). *)
